@@ -6,6 +6,7 @@ import ast
 
 from sa.db import AnalysisError, FuncInfo, ancestors, bind_args, dotted, src, walk_local
 from sa.flow import backward_slice, defs_reaching, reaching_defs
+from sa.cfg import test_atoms
 from sa.model import contains, enclosing, is_user_func_call, node_classes
 from sa.qualifiers import INNER, OUTER, NameSpaces
 from sa.variants import Variant, replace_once, sub_first, sub_once
@@ -140,6 +141,22 @@ def run(ctx) -> None:
     from .c14 import check_handler_dict_translated
 
     check_handler_dict_translated(ctx, "C06.R3", None)
+    # a mapping graph node translates *every* item's result itself: items may take different branches and produce
+    # different output names, so a name table taken from one item (the first successful one) misses outputs that
+    # first appear later — in each iteration of the per-item loop that is not a failed item, the translator is
+    # applied to that item's values
+    coll = db.func("runners._shared.helpers.collect_as_lists")
+    ccfg_ = ctx.cfg(coll)
+    loops_ = [n for n in ccfg_.nodes if n.kind == "for" and isinstance(n.ast.target, ast.Name) and any(isinstance(x, ast.Attribute) and x.attr == "values" and isinstance(x.value, ast.Name) and x.value.id == n.ast.target.id for x in ast.walk(n.ast))]
+    if not loops_:
+        raise AnalysisError("collect_as_lists: per-item loop not recognised")
+    lp_ = loops_[0]
+    item = lp_.ast.target.id
+    translators = [n for n in ccfg_.nodes if contains(lp_.ast, n.ast) and any(isinstance(c.func, ast.Attribute) and c.func.attr == "map_outputs_from_original" and c.args and src(c.args[0]).startswith(item + ".") for c in ccfg_.calls_at(n))] if True else []
+    failed = {src(a): False for t in ccfg_.nodes if t.kind == "test" and t.ast is not None and contains(lp_.ast, t.ast) for a in test_atoms(t.ast) if "FAILED" in src(a) and isinstance(a, ast.Compare) and isinstance(a.ops[0], (ast.Eq, ast.Is))}
+    failed.update({src(a): True for t in ccfg_.nodes if t.kind == "test" and t.ast is not None and contains(lp_.ast, t.ast) for a in test_atoms(t.ast) if "FAILED" in src(a) and isinstance(a, ast.Compare) and isinstance(a.ops[0], (ast.NotEq, ast.IsNot))})
+    ok_t = bool(translators) and must_reach_in_iteration(ccfg_, lp_, translators, failed)
+    rep.add("C06.R3", f"{coll.qname}:every-item-translated", ok_t, coll.loc(), "every successful item's values pass through the node's output translator" if ok_t else "an item's values can be collected without passing through node.map_outputs_from_original(<that item's values>) (e.g. a name table built once from the first item): an output that first appears in a later item is not renamed — it is dropped (None for every item) or lands under the wrong name after a swap")
 
     # ---- R9: the node cache addresses arguments by the function's own parameter names --------------------------
     # definition_hash ignores renames and the identity carries no input wiring, so two differently wired clones of one
@@ -253,6 +270,9 @@ def check_batch_isolation(ctx, rule: str, funcs) -> None:
     for f in funcs:
         # the inner per-batch loop must not write the map it looks up
         inner = [n for n in walk_local(f.node) if isinstance(n, ast.For) and enclosing(n, (ast.For,)) is not None]
+        # the same loop written as a comprehension (the normal form folds 'x = {}; for ..: x[k] = e' into one): it cannot
+        # write the map it looks up, only the application after it matters
+        inner += [n for n in walk_local(f.node) if isinstance(n, (ast.DictComp, ast.ListComp)) and enclosing(n, (ast.For,)) is not None and isinstance(getattr(n, "_parent", None), (ast.Assign, ast.AnnAssign))]
         ok = bool(inner)
         why = "per-batch loop not found"
         for lp in inner:
@@ -292,6 +312,11 @@ def check_batch_isolation(ctx, rule: str, funcs) -> None:
         # every entry of a batch records its update: the store is reached on every path through one iteration
         fcfg = ctx.cfg(f)
         for lp in inner:
+            if isinstance(lp, (ast.DictComp, ast.ListComp)):
+                # comprehension form: every element is recorded unless a filter drops some
+                okr = not any(g_.ifs for g_ in lp.generators)
+                rep.add(rule, f"{f.qname}:every-entry-recorded", okr, f"{f.module.rel}:{lp.lineno}", "every rename entry of a batch records its mapping unconditionally" if okr else "a filter in the per-batch comprehension skips entries without recording their mapping: an older mapping for that name survives")
+                continue
             ln = [n for n in fcfg.nodes if n.kind == "for" and n.ast is lp]
             stores = [n for n in fcfg.nodes if n.kind == "stmt" and isinstance(n.ast, ast.Assign) and isinstance(n.ast.targets[0], ast.Subscript) and contains(lp, n.ast)]
             okr = bool(ln) and bool(stores) and must_reach_in_iteration(fcfg, ln[0], stores, {})
